@@ -225,6 +225,18 @@ PROPS["C05"] = {
     "assumptions": [],
 }
 
+PROPS["C04"] = {
+    "pkg": "stk", "env": {"SIM_PROP": "C04"},
+    "legs": ["p2pke/sim", "p2pke/mem", "frag/p2pke/sim", "mbapp/p2pke/sim", "mux-string/frag/p2pke/sim", "wl/mbapp/p2pke/sim", "p2pke/mapudp/sim", "p2pke/sim"],
+    "runs": {"quick": 1600, "thorough": 100000}, "budget": {"quick": 240, "thorough": 2400},
+    "rule": "one run = one P2PKE-secured stack (bare, under fragmenting / message-box / multiplexer / whitelist layers, over the simulated network, the in-memory swarm and UDP-form addresses) on 3-4 nodes with keys from the seed; a random whitelist relation between identities; tells and asks to the right address and to wrong-identity addresses (right transport address, another node's or nobody's peer id); a packet-level adversary that replays, cross-feeds, reflects, bit-flips and re-injects with a spoofed transport source every datagram it has seen; network drop/duplicate/reorder/corrupt and all interleavings; "
+            "non-trivial = a key lookup inside a handler was checked and a fault fired; distinct = distinct scheduler decision traces",
+    "components": TIER_A,
+    "level_text": "seeded exploration; in every Receive/ServeAsk callback the ledger says who really sent the message: Src must be the sender's advertised address (its fingerprint), LookupPublicKey(Src) with a cancelled context must return the sender's key without panicking, the receiver's whitelist must admit the sender, and a message told to an identity nobody at that transport address holds must reach no callback",
+    "level_note": "QUIC and SSH swarms are not in this leg (Tier B, see DESIGN.md); the adversary holds no private key of an honest node",
+    "assumptions": [],
+}
+
 NOT_APPLICABLE = {
     "C17": "pure functions of their input (key/peer-id marshal, parse, equality, fingerprint): no schedule, clock, fault or second party for a simulator to vary; see DESIGN.md §7",
 }
